@@ -25,14 +25,14 @@ Print Assumptions C07_clean_history.
    in a chunk writer's buffer is dropped *)
 Theorem C07_clean_nosync_refuted : forall fx, fx_sync fx = false -> ~ clean_statement fx.
 Proof.
-  intros [fs fa fp fn fd fg] F H. cbn in F. subst fs.
+  intros [fs fa fp fn fd fg fr] F H. cbn in F. subst fs.
   specialize (H (mkMem [O] [(O, [5])] [] [] [(O, O)] []) (mkDisk (Some (Whole [O])) None None None [] 1%nat [])).
   destruct H as (m' & d' & S & _ & _ & E).
   - split; [reflexivity|]. split; [intros p []|]. split.
     + intros p Hp. cbn in Hp. destruct p; [left; reflexivity|congruence].
     + split; [repeat constructor; intros []|]. intros p [<-|[]]. cbn. discriminate.
   - constructor.
-  - destruct fa, fn; vm_compute in S; injection S as <- <-; specialize (E O); vm_compute in E; discriminate E.
+  - destruct fa, fn, fr; vm_compute in S; injection S as <- <-; specialize (E O); vm_compute in E; discriminate E.
 Qed.
 Print Assumptions C07_clean_nosync_refuted.
 
@@ -56,7 +56,7 @@ Print Assumptions C07_crash_tindex.
    missing, the index loads empty, a journal with data has no record, Init fails (tindex.bak is never read) *)
 Theorem C07_crash_tindex_inplace_refuted : forall fx, fx_atomic fx = false -> ~ tindex_crash_statement fx.
 Proof.
-  intros [fs fa fp fn fd fg] F H. cbn in F. subst fa.
+  intros [fs fa fp fn fd fg fr] F H. cbn in F. subst fa.
   specialize (H (mkDisk (Some (Whole [O])) None None None [(O, (O, [5]))] 1%nat []) [O] [O; 1%nat]
                 (mkDisk None (Some (Whole [O])) None None [(O, (O, [5]))] 1%nat []) eq_refl).
   destruct H as [H|H].
@@ -73,6 +73,13 @@ Theorem C07_torn_refuses_start : forall fx d k,
   d_tdat d = Some (Torn k) \/ d_pdat d = Some (Torn k) -> start fx d = None.
 Proof. intros fx d k [H|H]; [exact (tindex_torn_refuses fx d k H)|exact (pipes_torn_refuses fx d k H)]. Qed.
 Print Assumptions C07_torn_refuses_start.
+
+(* the loader's protection against a wrong index file: a journal with data and no record: the server does not start
+   (the reason the directory of a partition goes before its record, C07_crash_drop) *)
+Theorem C07_data_without_record_refuses : forall fx d m p,
+  d_tdat d = Some (Whole m) -> In p (with_data d) -> ~ In p m -> start fx d = None.
+Proof. exact data_without_record_refuses. Qed.
+Print Assumptions C07_data_without_record_refuses.
 
 (* a save that completes loads back (every variant) *)
 Theorem C07_tindex_save_loads_back : forall fx d m, (forall p, In p (with_data d) -> In p m) ->
@@ -100,13 +107,13 @@ Print Assumptions C07_saver_crash_harmless.
 (* ================= pipe definitions ================= *)
 (* the property: after any history and a crash, pipes.dat holds the acknowledged pipe definitions *)
 Theorem C07_crash_pipes : pipes_crash_statement code_fix.
-Proof. exact (pipes_crash_fixed code_fix eq_refl). Qed.
+Proof. exact (pipes_crash_fixed code_fix eq_refl eq_refl). Qed.
 Print Assumptions C07_crash_pipes.
 
 (* false when pipes.dat is written by Shutdown only: one CREATE PIPE, SIGKILL *)
 Theorem C07_crash_pipes_shutdown_only_refuted : forall fx, fx_pipes fx = false -> ~ pipes_crash_statement fx.
 Proof.
-  intros [fs fa fp fn fd fg] F H. cbn in F. subst fp. specialize (H empty_mem (mkDisk None None None (Some (Whole [])) [] O []) [SPipe O] eq_refl).
+  intros [fs fa fp fn fd fg fr] F H. cbn in F. subst fp. specialize (H empty_mem (mkDisk None None None (Some (Whole [])) [] O []) [SPipe O] eq_refl).
   vm_compute in H. discriminate H.
 Qed.
 Print Assumptions C07_crash_pipes_shutdown_only_refuted.
@@ -120,9 +127,9 @@ Print Assumptions C07_crash_pipes_save.
 (* false for a saver that writes pipes.dat in place: the empty file *)
 Theorem C07_crash_pipes_save_inplace_refuted : forall fx, fx_pipes fx = false -> ~ pipes_save_crash_statement fx.
 Proof.
-  intros [fs fa fp fn fd fg] F H. cbn in F. subst fp.
+  intros [fs fa fp fn fd fg fr] F H. cbn in F. subst fp.
   destruct (H (mkDisk None None None (Some (Whole [O])) [] O []) [O] [O; 1%nat] _ eq_refl
-              (pcrash_torn (mkFix fs fa false fn fd fg) _ _ O eq_refl)) as [C|C]; vm_compute in C; discriminate C.
+              (pcrash_torn (mkFix fs fa false fn fd fg fr) _ _ O eq_refl)) as [C|C]; vm_compute in C; discriminate C.
 Qed.
 Print Assumptions C07_crash_pipes_save_inplace_refuted.
 
@@ -139,15 +146,48 @@ Print Assumptions C07_drop_survives_restart.
    rest, once, and saves the new position - in memory and in its progress file: afterwards the
    destination was told exactly the source's flushed events (and C07_clean keeps them across a restart, so that the next
    catch-up - which resumes after the destination's last event - forwards nothing twice) *)
-Theorem C07_pipe_catches_up_once : forall fx m d s t, mem_nat s (m_parts m) = true ->
-  lookup t (m_prog m) = Some (length (acked m d t)) ->
+Theorem C07_pipe_catches_up_once : forall fx m d n s t, mem_nat s (m_parts m) = true ->
+  lookup n (m_prog m) = Some (length (acked m d t)) ->
   acked m d t = firstn (length (acked m d t)) (events_of s (d_jrnl d)) ->
-  let md := do_step fx (m, d) (SDrain s t) in
+  let md := do_step fx (m, d) (SDrain n s t) in
   acked (fst md) (snd md) t = events_of s (d_jrnl d) /\
-  lookup t (m_prog (fst md)) = Some (length (events_of s (d_jrnl d))) /\
-  lookup t (d_prog (snd md)) = Some (Whole (length (events_of s (d_jrnl d)))).
+  lookup n (m_prog (fst md)) = Some (length (events_of s (d_jrnl d))) /\
+  lookup n (d_prog (snd md)) = Some (Whole (length (events_of s (d_jrnl d)))).
 Proof. exact drain_catches_up. Qed.
 Print Assumptions C07_pipe_catches_up_once.
+
+(* ================= a pipe's position across a graceful restart; one file per persisted object ================= *)
+(* the property: the position a pipe has saved is the position it has after a graceful stop and a start *)
+Theorem C07_progress_survives_clean_restart : progress_survives_statement code_fix.
+Proof. exact (progress_survives code_fix eq_refl). Qed.
+Print Assumptions C07_progress_survives_clean_restart.
+
+(* false while the definitions are kept in pipes.dat, for the pipe named "s" (number 5): pipes.dat IS its pipe<name>.dat;
+   the definitions written at shutdown are what it finds as its positions at the start: it has none *)
+Theorem C07_progress_survives_shared_file_refuted : forall fx, fx_reg fx = false -> fx_prog fx = true ->
+  ~ progress_survives_statement fx.
+Proof.
+  intros [fs fa fp fn fd fg fr] F G H. cbn in F, G. subst fr fg.
+  pose (d := mkDisk (Some (Whole [])) None None (Some (Whole [5%nat])) [] O [(5%nat, Whole 3%nat)]).
+  pose (m := mkMem [] [] [] [5%nat] [] [(5%nat, 3%nat)]).
+  destruct (start (mkFix fs fa fp fn fd true false) (graceful (mkFix fs fa fp fn fd true false) m d)) as [[m' d']|] eqn:S.
+  - specialize (H m d 5%nat 3%nat m' d' eq_refl S).
+    destruct fs, fa; vm_compute in S; injection S as <- <-; vm_compute in H; discriminate H.
+  - destruct fs, fa; vm_compute in S; discriminate S.
+Qed.
+Print Assumptions C07_progress_survives_shared_file_refuted.
+
+(* ... and the other way round: the positions this pipe saves are what the next start finds as the definitions: they do
+   not parse, the server does not start (C07_torn_refuses_start). "After any history and a crash pipes.dat holds the
+   definitions" (C07_crash_pipes) is false: one catch-up of the pipe named "s" *)
+Theorem C07_crash_pipes_shared_file_refuted : forall fx, fx_reg fx = false -> ~ pipes_crash_statement fx.
+Proof.
+  intros [fs fa fp fn fd fg fr] F H. cbn in F. subst fr.
+  specialize (H (mkMem [O] [] [] [5%nat] [(O, O)] []) (mkDisk (Some (Whole [O])) None None (Some (Whole [5%nat])) [(O, (O, [7]))] 1%nat [])
+                [SDrain 5 0 1] eq_refl).
+  destruct fa; vm_compute in H; discriminate H.
+Qed.
+Print Assumptions C07_crash_pipes_shared_file_refuted.
 
 (* ================= a torn pipe progress file ================= *)
 (* pipe<name>.dat is rewritten in place after every batch: a crash inside that write leaves any proper prefix of it. The
@@ -159,19 +199,19 @@ Print Assumptions C07_torn_progress_starts.
 (* false for a newPPipe that returns the error of loadPipeInfo: pipe.Service.Init fails, the server does not start *)
 Theorem C07_torn_progress_error_returned_refuted : forall fx, fx_prog fx = false -> ~ progress_torn_statement fx.
 Proof.
-  intros [fs fa fp fn fd fg] F H. cbn in F. subst fg.
-  pose (d := mkDisk (Some (Whole [])) None None None [] O [(1%nat, Whole 3%nat)]).
-  destruct (start (mkFix fs fa fp fn fd false) d) as [[m' d']|] eqn:S; [|destruct fa; vm_compute in S; discriminate S].
-  destruct (H None d 1%nat O m' d' S) as (m1 & d1 & S1 & _). destruct fa; vm_compute in S1; discriminate S1.
+  intros [fs fa fp fn fd fg fr] F H. cbn in F. subst fg.
+  pose (d := mkDisk (Some (Whole [])) None None None [] O [(4%nat, Whole 3%nat)]).
+  destruct (start (mkFix fs fa fp fn fd false fr) d) as [[m' d']|] eqn:S; [|destruct fa; vm_compute in S; discriminate S].
+  destruct (H None d 4%nat O m' d' S) as (m1 & d1 & S1 & _). destruct fa; vm_compute in S1; discriminate S1.
 Qed.
 Print Assumptions C07_torn_progress_error_returned_refuted.
 
 (* what the code does with the pipe after it (after a crash no claim is made about a pipe's progress): the pipe has no
    position; its next catch-up forwards nothing and takes the end of what is flushed then as its position: flushed events
    it had not forwarded are skipped, nothing is forwarded twice *)
-Theorem C07_pipe_without_position : forall fx m d s t, mem_nat s (m_parts m) = true -> lookup t (m_prog m) = None ->
-  let md := do_step fx (m, d) (SDrain s t) in
-  acked (fst md) (snd md) t = acked m d t /\ lookup t (m_prog (fst md)) = Some (length (events_of s (d_jrnl d))).
+Theorem C07_pipe_without_position : forall fx m d n s t, mem_nat s (m_parts m) = true -> lookup n (m_prog m) = None ->
+  let md := do_step fx (m, d) (SDrain n s t) in
+  acked (fst md) (snd md) t = acked m d t /\ lookup n (m_prog (fst md)) = Some (length (events_of s (d_jrnl d))).
 Proof. exact drain_without_position. Qed.
 Print Assumptions C07_pipe_without_position.
 
@@ -185,9 +225,9 @@ Print Assumptions C07_crash_drop.
 (* false when the record goes first: between the two effects there is a journal with data and no record: Init fails *)
 Theorem C07_crash_drop_record_first_refuted : forall fx, fx_drop fx = false -> ~ drop_crash_statement fx.
 Proof.
-  intros [fs fa fp fn fd fg] F H. cbn in F. subst fd.
+  intros [fs fa fp fn fd fg fr] F H. cbn in F. subst fd.
   specialize (H (mkMem [O] [] [] [] [(O, O)] []) (mkDisk (Some (Whole [O])) None None None [(O, (O, [5]))] 1%nat []) O
-                (tsave (mkFix fs fa fp fn false fg) (mkDisk (Some (Whole [O])) None None None [(O, (O, [5]))] 1%nat []) [])).
+                (tsave (mkFix fs fa fp fn false fg fr) (mkDisk (Some (Whole [O])) None None None [(O, (O, [5]))] 1%nat []) [])).
   destruct H as [H|H].
   - split; [reflexivity|]. split; [intros p Hp; cbn in Hp; destruct Hp as [<-|[]]; left; reflexivity|].
     split; [intros p Hp; exfalso; apply Hp; reflexivity|]. split; [constructor|intros p []].
@@ -211,13 +251,13 @@ Print Assumptions C07_crash_cindex.
    30,40 flushed | crash: the stale hull [10,20] makes RANGE [25:45] skip the chunk *)
 Theorem C07_crash_cindex_snapshot_kept_refuted : forall fx, fx_snap fx = false -> ~ range_after_crash_statement fx.
 Proof.
-  intros [fs fa fp fn fd fg] F H. cbn in F. subst fn.
+  intros [fs fa fp fn fd fg fr] F H. cbn in F. subst fn.
   pose (d0 := mkDisk (Some (Whole [O])) None (Some (Whole [(O, (10, 20))])) None [(O, (O, [10; 20]))] 1%nat []).
-  destruct (start (mkFix fs fa fp false fd fg) d0) as [[m0 d0']|] eqn:S0; [|destruct fa; vm_compute in S0; discriminate S0].
+  destruct (start (mkFix fs fa fp false fd fg fr) d0) as [[m0 d0']|] eqn:S0; [|destruct fa; vm_compute in S0; discriminate S0].
   assert (K0 : keys_nodup d0) by (repeat constructor; intros []).
-  pose proof (reach (mkFix fs fa fp false fd fg) d0 m0 d0' [SWrite O [30; 40]; SSync] K0 S0) as R.
-  set (md := run_steps (mkFix fs fa fp false fd fg) (m0, d0') [SWrite O [30; 40]; SSync]) in *.
-  destruct (start (mkFix fs fa fp false fd fg) (killed (fst md) (snd md))) as [[m' d']|] eqn:S;
+  pose proof (reach (mkFix fs fa fp false fd fg fr) d0 m0 d0' [SWrite O [30; 40]; SSync] K0 S0) as R.
+  set (md := run_steps (mkFix fs fa fp false fd fg fr) (m0, d0') [SWrite O [30; 40]; SSync]) in *.
+  destruct (start (mkFix fs fa fp false fd fg fr) (killed (fst md) (snd md))) as [[m' d']|] eqn:S;
     [|destruct fa; vm_compute in S0; injection S0 as <- <-; vm_compute in S; discriminate S].
   specialize (H (fst md) (snd md) R).
   assert (U : chunk_ids_unique (snd md)).
@@ -256,19 +296,19 @@ Example C07_witnesses_reachable :
   (* write 10,20,30; flush; write 40; graceful stop; start: everything is back; without the sync 40 is gone *)
   run_sessions code_fix 1 15 25 empty_disk [mkSession [SWrite 0 [10; 20; 30]; SSync; SWrite 0 [40]] true []]
     = [OStarted [None] [] [[]]; OStarted [Some [10; 20; 30; 40]] [] [[20]]] /\
-  run_sessions (mkFix false true true true true true) 1 15 25 empty_disk [mkSession [SWrite 0 [10; 20; 30]; SSync; SWrite 0 [40]] true []]
+  run_sessions (mkFix false true true true true true true) 1 15 25 empty_disk [mkSession [SWrite 0 [10; 20; 30]; SSync; SWrite 0 [40]] true []]
     = [OStarted [None] [] [[]]; OStarted [Some [10; 20; 30]] [] [[20]]] /\
   (* a crash inside the tag-index save: harmless; with the in-place saver (rename window, torn write) the server refuses to start *)
   run_sessions code_fix 1 15 25 empty_disk [mkSession [SWrite 0 [10; 20; 30]; SSync] true [GTRenamed; GTTorn 0]]
     = [OStarted [None] [] [[]]; OStarted [Some [10; 20; 30]] [] [[20]]] /\
-  run_sessions (mkFix true false true true true true) 1 15 25 empty_disk [mkSession [SWrite 0 [10; 20; 30]; SSync] true [GTRenamed]]
+  run_sessions (mkFix true false true true true true true) 1 15 25 empty_disk [mkSession [SWrite 0 [10; 20; 30]; SSync] true [GTRenamed]]
     = [OStarted [None] [] [[]]; ORefused] /\
-  run_sessions (mkFix true false true true true true) 1 15 25 empty_disk [mkSession [SWrite 0 [10; 20; 30]; SSync] true [GTTorn 0]]
+  run_sessions (mkFix true false true true true true true) 1 15 25 empty_disk [mkSession [SWrite 0 [10; 20; 30]; SSync] true [GTTorn 0]]
     = [OStarted [None] [] [[]]; ORefused] /\
   (* pipe created, SIGKILL: it is there; saved at shutdown only: gone *)
   run_sessions code_fix 1 15 25 empty_disk [mkSession [SPipe 0] false []]
     = [OStarted [None] [] [[]]; OStarted [None] [0%nat] [[]]] /\
-  run_sessions (mkFix true true false true true true) 1 15 25 empty_disk [mkSession [SPipe 0] false []]
+  run_sessions (mkFix true true false true true true true) 1 15 25 empty_disk [mkSession [SPipe 0] false []]
     = [OStarted [None] [] [[]]; OStarted [None] [] [[]]] /\
   (* a shutdown that dies inside the pipes save (acknowledged 40 still buffered: a crash may lose it) *)
   run_sessions code_fix 1 15 25 empty_disk [mkSession [SWrite 0 [10; 20; 30]; SSync; SWrite 0 [40]; SPipe 0] false [GPTorn 1]]
@@ -278,30 +318,30 @@ Example C07_witnesses_reachable :
                                             mkSession [SWrite 1 [41]; SSync] true []]
     = [OStarted [None; None] [] [[]; []]; OStarted [Some [10; 20]; None] [] [[20]; []]; OStarted [Some [10; 20]; Some [41]] [] [[20]; []]] /\
   (* a pipe from partition 0 to partition 1 across a graceful restart: nothing is forwarded twice *)
-  run_sessions code_fix 2 15 25 empty_disk [mkSession [SPipe 4; SSync; SWrite 0 [10; 20]; SDrain 0 1; SSync; SWrite 0 [30]; SDrain 0 1] true [];
-                                            mkSession [SSync; SWrite 0 [40]; SDrain 0 1] true []]
+  run_sessions code_fix 2 15 25 empty_disk [mkSession [SPipe 4; SSync; SWrite 0 [10; 20]; SDrain 4 0 1; SSync; SWrite 0 [30]; SDrain 4 0 1] true [];
+                                            mkSession [SSync; SWrite 0 [40]; SDrain 4 0 1] true []]
     = [OStarted [None; None] [] [[]; []]; OStarted [Some [10; 20; 30]; Some [10; 20]] [4%nat] [[20]; [20]];
        OStarted [Some [10; 20; 30; 40]; Some [10; 20; 30]] [4%nat] [[20]; [20]]] /\
   (* the progress file of the pipe torn after the first session: the server starts, the pipe is there, 30 (flushed by the
      graceful stop, not forwarded before it) is passed over, nothing is forwarded twice; a loader that returns the error: refused *)
   run_sessions code_fix 2 15 25 empty_disk
-    [mkSession [SPipe 4; SSync; SWrite 0 [10; 20]; SDrain 0 1; SSync; SWrite 0 [30]; SDrain 0 1] true [GProgTorn 1 7];
-     mkSession [SSync; SWrite 0 [40]; SDrain 0 1; SSync; SWrite 0 [50]; SDrain 0 1] true []]
+    [mkSession [SPipe 4; SSync; SWrite 0 [10; 20]; SDrain 4 0 1; SSync; SWrite 0 [30]; SDrain 4 0 1] true [GProgTorn 4 7];
+     mkSession [SSync; SWrite 0 [40]; SDrain 4 0 1; SSync; SWrite 0 [50]; SDrain 4 0 1] true []]
     = [OStarted [None; None] [] [[]; []]; OStarted [Some [10; 20; 30]; Some [10; 20]] [4%nat] [[20]; [20]];
        OStarted [Some [10; 20; 30; 40; 50]; Some [10; 20; 40]] [4%nat] [[20]; [20]]] /\
-  run_sessions (mkFix true true true true true false) 2 15 25 empty_disk
-    [mkSession [SPipe 4; SSync; SWrite 0 [10; 20]; SDrain 0 1; SSync; SWrite 0 [30]; SDrain 0 1] true [GProgTorn 1 7]]
+  run_sessions (mkFix true true true true true false true) 2 15 25 empty_disk
+    [mkSession [SPipe 4; SSync; SWrite 0 [10; 20]; SDrain 4 0 1; SSync; SWrite 0 [30]; SDrain 4 0 1] true [GProgTorn 4 7]]
     = [OStarted [None; None] [] [[]; []]; ORefused] /\
   (* 10,20 | clean stop | 30,40 flushed | SIGKILL: RANGE [25:45] shows them; with a snapshot that survives the crash it does not *)
   run_sessions code_fix 1 25 45 empty_disk [mkSession [SWrite 0 [10; 20]; SSync] true []; mkSession [SWrite 0 [30; 40]; SSync] false []]
     = [OStarted [None] [] [[]]; OStarted [Some [10; 20]] [] [[]]; OStarted [Some [10; 20; 30; 40]] [] [[30; 40]]] /\
-  run_sessions (mkFix true true true false true true) 1 25 45 empty_disk [mkSession [SWrite 0 [10; 20]; SSync] true []; mkSession [SWrite 0 [30; 40]; SSync] false []]
+  run_sessions (mkFix true true true false true true true) 1 25 45 empty_disk [mkSession [SWrite 0 [10; 20]; SSync] true []; mkSession [SWrite 0 [30; 40]; SSync] false []]
     = [OStarted [None] [] [[]]; OStarted [Some [10; 20]] [] [[]]; OStarted [Some [10; 20; 30; 40]] [] [[]]] /\
   (* a crash between the two effects of the removal of partition 1: the server starts (the partition is there, empty); with
      the record removed first it refuses *)
   run_sessions code_fix 2 15 25 empty_disk [mkSession [SWrite 0 [10; 20]; SWrite 1 [5]; SSync] true [GTOrphan 1]]
     = [OStarted [None; None] [] [[]; []]; OStarted [Some [10; 20]; Some []] [] [[20]; []]] /\
-  run_sessions (mkFix true true true true false true) 2 15 25 empty_disk [mkSession [SWrite 0 [10; 20]; SWrite 1 [5]; SSync] true [GTOrphan 1]]
+  run_sessions (mkFix true true true true false true true) 2 15 25 empty_disk [mkSession [SWrite 0 [10; 20]; SWrite 1 [5]; SSync] true [GTOrphan 1]]
     = [OStarted [None; None] [] [[]; []]; ORefused].
 Proof. vm_compute. repeat split. Qed.
 
